@@ -1,6 +1,7 @@
 package main
 
 import (
+	"go/token"
 	"fmt"
 	"go/types"
 	"regexp"
@@ -256,6 +257,8 @@ func (e *Eval) invoke(fr *Frame, cc *ssa.CallCommon, args []Val, st *State, cur,
 	if n, ok := types.Unalias(it).(*types.Named); ok && n.Obj().Pkg() != nil {
 		pkg = e.p.prog.Package(n.Obj().Pkg())
 	}
+	// per-invocation counter of every interface call (ncalls("iface.Method"))
+	e.ghostCount(st, "$c."+ifaceShort(it)+"."+cc.Method.Name())
 	// ghost call log ($ncalls counts every backend call except Close, which
 	// is a matter of the reference counts, C05)
 	if ifaceShort(it) == "File" || ifaceShort(it) == "Attacher" {
@@ -902,6 +905,35 @@ func (e *Eval) atGhost(fr *Frame, cc *ssa.CallCommon, name, site string, args []
 		}
 		e.applyGhost(&Contract{Ghost: []string{at.Clause.Text}}, env, st, st, cur, site)
 		e.c.Assume("ghost step before " + name + " in " + e.rootKey + ": " + at.Clause.Text)
+	}
+}
+
+// atChanSend: `at chan-send requires ...` clauses of the function under
+// verification are checked at every channel send (plain or as a select case);
+// `sent` is the value being sent.
+func (e *Eval) atChanSend(fr *Frame, sent Val, sentT types.Type, st *State, cur string, pos token.Pos) {
+	if e.rootC == nil || fr != e.root {
+		return
+	}
+	for _, at := range e.rootC.At {
+		if at.Kind != "requires" || at.Callee != "chan-send" {
+			continue
+		}
+		e.atMatched[at] = true
+		ex, err := at.Clause.Parse()
+		if err != nil {
+			e.c.Unsupported("%v", err)
+			continue
+		}
+		env := e.newEnv(e.rootPkg, st, e.entry)
+		e.bindParams(env, e.root)
+		e.bindCells(env, e.root)
+		env.bind("sent", sent, sentT)
+		lbl := at.Clause.Label
+		if lbl == "" {
+			lbl = "at"
+		}
+		e.oblige(fmt.Sprintf("callsite@%s/%s", e.site("chan-send"), lbl), "callsite", at.Clause.Props, cur, env.evalGoal(ex), at.Clause.Text, e.p.prog.Fset.Position(pos).String())
 	}
 }
 
